@@ -288,6 +288,7 @@ impl Explorer {
         let n = self.cfg.nthreads;
         EXEC.with(|e| *e.borrow_mut() = Some(Exec::new(n, self.cfg.spin)));
         CANCEL.with(|c| c.set(false));
+        exec::UNWINDING.with(|u| *u.borrow_mut() = [false; exec::MAXT]);
         let System { bodies, finish } = setup();
         assert_eq!(bodies.len(), n);
         let mut gens: Vec<Gen> = bodies.into_iter().map(spawn).collect();
@@ -443,8 +444,9 @@ impl Explorer {
         self.stats.max_preemptions = self.stats.max_preemptions.max(pre);
         // abandon unfinished coroutines: their next resume unwinds them with the private payload
         CANCEL.with(|c| c.set(true));
-        for g in gens.iter_mut() {
+        for (t, g) in gens.iter_mut().enumerate() {
             if !g.is_done() {
+                EXEC.with(|e| e.borrow_mut().as_mut().unwrap().cur = t);
                 resume(g);
             }
         }
